@@ -43,3 +43,6 @@ def standins(tier, seed):
              dict(p=2, q=2, grade_blocks=True, random=8), dict(p=4, q=1, grade_blocks=False, random=6), dict(name='3DPGA', random=6)]
     return [{'name': f'compose#{i}', 'bound': 'ordered key-tuple pairs: exhaustive d<=1 (d=2 sampled 1500 per signature in thorough), grade blocks and seeded random patterns d<=5; polynomial coefficients',
              'job': {'kind': 'compose', 'module': 'standins.jobs5', 'configs': [c], 'seed': seed + i}} for i, c in enumerate(cfgs)]
+
+
+replay = K.replay_any
